@@ -57,7 +57,7 @@ func hostileBuf(r *RNG) []byte {
 		b = append(b, r.Bytes(10+4*cc)...)
 		prof := [][]byte{{0xBE, 0xDE}, {0x10, 0x00}, {0x12, 0x34}}[r.Intn(3)]
 		b = append(b, prof...)
-		words := r.Pick(0, 1, 1, 2, 3, 200)
+		words := r.Pick(0, 1, 1, 2, 3, 200, 0x4000, 0x8001, 0xC000, 0xFFFF)
 		b = append(b, byte(words>>8), byte(words))
 		body := make([]byte, r.Intn(16))
 		for i := range body {
@@ -104,8 +104,27 @@ func runUnmarshalSeq(pkt bool, bufs [][]byte) Outcome {
 		}
 		o.Tags = append(o.Tags, "accepted")
 		o.Nontrivial = true
+		// the header length the wire itself declares (RFC 3550 5.1 / 5.3.1), computed here
+		declared := 12 + 4*int(buf[0]&0x0F)
+		oneByte := false
+		if buf[0]&0x10 != 0 && len(buf) >= declared+4 {
+			oneByte = buf[declared] == 0xBE && buf[declared+1] == 0xDE
+			declared += 4 + 4*(int(buf[declared+2])<<8|int(buf[declared+3]))
+		}
+		checkDeclared := func(n int) {
+			switch {
+			case declared > len(buf):
+				o.Fail = fmt.Sprintf("step %d: accepted although the declared header length %d exceeds the %d input bytes", step, declared, len(buf))
+			case n < declared && !oneByte:
+				// n < declared happens only for the one-byte profile's reserved id 15 (KF-C03-reserved15);
+				// n > declared is possible on malformed input whose last element overruns its block
+				// (the element is still inside the input, which is all that C02 asks)
+				o.Fail = fmt.Sprintf("step %d: header length %d, the wire declares %d", step, n, declared)
+			}
+		}
 		if pkt {
 			n = len(buf) - len(p.Payload) - int(p.PaddingSize)
+			checkDeclared(n)
 			results = append(results, OkV(L(vPacket(&p), I(int64(n)), vOffsets(&p.Header, buf))))
 			// bounds
 			if n < 0 || n > len(buf) {
@@ -129,6 +148,7 @@ func runUnmarshalSeq(pkt bool, bufs [][]byte) Outcome {
 			if n < 12 || n > len(buf) {
 				o.Fail = fmt.Sprintf("step %d: n=%d outside the input", step, n)
 			}
+			checkDeclared(n)
 			var q rtp.Header
 			n2, e2 := q.Unmarshal(buf)
 			if e2 != nil || n2 != n || !hdrEquivalent(&h, &q) {
